@@ -197,7 +197,9 @@ func malformed(e reg.Entry, doc []byte) {
 	}
 	for _, s := range []string{`123`, `-1`, `"abc"`, `""`, `null`, `{}`, `[]`, `true`, `1e400`, `"-1"`, `"0x"`, `"0xzz"`, `18446744073709551616`,
 		`"18446744073709551616"`, `-9223372036854775809`, `{"SumType":"nope"}`, `{"SumType":1}`, `[1,2,3]`, `"` + strings.Repeat("f", 2001) + `"`,
-		`"b5ee9c72"`, `"b5ee9c7201"`, `":"`, `"0:"`, `"0:zz"`, `"-1:00"`, `"_"`, `"8_"`, `"x_"`, `1.5`, `"1.5"`, ` `, ``} {
+		`"b5ee9c72"`, `"b5ee9c7201"`, `":"`, `"0:"`, `"0:zz"`, `"-1:00"`, `"_"`, `"8_"`, `"x_"`, `1.5`, `"1.5"`, ` `, ``,
+		`"0:00:Anycast("`, `"0:00:Anycast()"`, `"0:00:Anycast(1"`, `"0:00:Anycast(1,"`, `"0:00:Anycast(1,2"`, `"0:00:)"`, `"0:00:Anycast"`, `"0:00:A"`, `"::"`, `":::"`, `"0:_"`, `":_"`, `"0:_:Anycast(1,1)"`, `"0::Anycast(1,1)"`,
+		`"0:` + strings.Repeat("0", 64) + `:Anycast("`, `"0:` + strings.Repeat("0", 64) + `:)"`, `"0x"`, `"0x100000000"`} {
 		try("confusion", []byte(s))
 	}
 	rng := mon.NewRng(mon.Hash64(e.Name) ^ uint64(len(doc)))
@@ -216,9 +218,10 @@ func main() {
 		tier = os.Args[1]
 	}
 	R = mon.Start("C20", tier)
-	R.Rule = "registry = every exported type of tlb/wallet/abi (generated from the sources) plus boc.Cell, boc.BitString, tlb.Magic, ton.Bits256, ton.AccountID, tl.Int256, abi.InMsgBody, abi.ExtOutMsgBody for which both json.Marshaler and json.Unmarshaler are implemented (decided by reflection at run time); values from the C03 domain rules (integer boundaries first, every constructor, then random), bare and wrapped in a struct field and a slice; each document must be valid JSON and parse back to a semantically equal value; truncations, type confusions and random edits of each document must not panic (through json.Unmarshal and through the method called directly); non-trivial = a value whose JSON was parsed back and compared; distinct = distinct (type, form, case)"
+	R.Rule = "registry = every exported type of tlb/wallet/abi (generated from the sources) plus boc.Cell, boc.BitString, tlb.Magic, ton.Bits256, ton.AccountID, tl.Int256, abi.InMsgBody, abi.ExtOutMsgBody for which both json.Marshaler and json.Unmarshaler are implemented (decided by reflection at run time); values from the C03 domain rules (integer boundaries first, every constructor, then random), bare and wrapped in a struct field and a slice; each document must be valid JSON and parse back to a semantically equal value; truncations, type confusions and random edits of each document must not panic (through json.Unmarshal and through the method called directly); additional directed classes: magic tags with a value (compared as numbers), bit strings of every length 0..1023, every length 0..511 of external/variable addresses, the unknown-body arm of InMsgBody/ExtOutMsgBody/JettonPayload/NFTPayload and every known body type once, exotic cells (library, pruned under a Merkle proof, Merkle update) as Cell/Any/Maybe[Ref[Cell]] compared structurally with the reference tree, addresses with an anycast part and every cut of their text; documents that are no value's JSON form (numbers beyond the width, hex of another length, two-root bags, non-numeric anycast) must be refused or, if accepted, be written back unchanged; non-trivial = a value whose JSON was parsed back and compared; distinct = distinct (type, form, case)"
 	R.Assume("a variable-length address with 256 bits and an int8 workchain (text identical to a standard address) is skipped, as the statement says")
-	R.Assume("semantic equality as in C03 (harness/reg/eq.go)")
+	R.Assume("semantic equality as in C03 (harness/reg/eq.go); magic tags, swept bit strings and exotic cells are additionally compared by value / bit by bit / with the reference tree")
+	R.Assume("a document that denotes no value of the type but is accepted and written back as the same document (big-integer types keep any number) is counted, not flagged")
 	entries := reg.Types()
 	extra := func(name string, t reflect.Type) { entries = append(entries, reg.Entry{Name: name, Type: t}) }
 	extra("boc.BitString", reflect.TypeOf(boc.BitString{}))
@@ -283,6 +286,7 @@ func main() {
 			R.Violation("roundtrip-mismatch@tlb.MsgAddress/"+kind+"/length-sweep", map[string]any{"doc": string(doc), "diff": d, "bits": addrBits(a)})
 		}
 	}
+	extraSections(sel)
 	R.Sample(map[string]any{"type": "tlb.Int257", "example": "-2^256 -> \"-1157920892...\" -> parsed back equal; also as struct field and slice element"})
 	os.Exit(R.Finish())
 }
